@@ -1,2 +1,121 @@
-(* C01M - mechanism-level model of the component renderer (deepens C01/C03/C05). *)
+(* C01M - mechanism-level model M of the component renderer (Core/Mech.v: a transliteration of what the code does with
+   Django's Context layer stack, render ids and component_context_cache), deepening C01 / C03 / C05, which are decided
+   against the lexically scoped reference renderer S (Core/Sem.v).  Proofs in Core/MechProofs.v.
+   Every run also compares M with the implementation and M with S on generated programs (harness/c01m.py). *)
 From DJC Require Import Lib.Base Core.Syntax Core.Sem Core.Mech Core.MechProofs.
+From DJC Require Gen.C01M.
+From Coq Require Import String.
+Local Open Scope string_scope.
+Local Open Scope list_scope.
+
+(* the internal keys of the model are the ones of the source tree under test (coq/Gen/C01M.v is regenerated from
+   django_components/context.py and slots.py at the start of every run) *)
+Example internal_keys_anchor :
+  Gen.C01M.component_context_key = KEY /\ Gen.C01M.inject_key_prefix = INJ_PREFIX /\
+  Gen.C01M.fill_gen_key = GEN_FILL /\ Gen.C01M.default_slot_key = default_key.
+Proof. repeat split; reflexivity. Qed.
+
+(* ===================== 1. every push has its pop ===================== *)
+(* Whatever node is rendered - text, scopes, provide, slot tags (filled or not, with render_func's insert(i)/pop(i) at
+   the computed index incl. i = -1), fill tags, component tags (fill extraction layer, isolated copy, data layer,
+   internal-key layer), {{ default }} slot references - in whatever global state, on whatever Context (any layers, any
+   internal keys), in either context behaviour, for any component library and any fuel: if the render succeeds, the
+   Context is the same object with the same layer list as before.  (The failing path is C06's subject.) *)
+Theorem ctx_restored : forall md lib fuel g c t a g' c',
+  mrender md lib fuel g c t = MOk (a, g', c') -> c' = c.
+Proof. exact ctx_restored_lemma. Qed.
+Print Assumptions ctx_restored.
+
+Theorem ctx_restored_list : forall md lib fuel ts g c a g' c',
+  mrender_list md lib fuel g c ts = MOk (a, g', c') -> c' = c.
+Proof. exact ctx_restored_list_lemma. Qed.
+Print Assumptions ctx_restored_list.
+
+(* ===================== 2. fills are private to their instance ===================== *)
+(* write side: rendering anything never changes the component name, the fills or the outer Context of a
+   component_context_cache entry that exists already, never creates an entry under an id that was handed out before,
+   and ids only grow - so the fills stored at a component tag under its fresh render id stay what they were for the
+   whole life of the instance, whatever other instances are rendered meanwhile (both modes, all programs) *)
+Theorem fills_private_to_instance : forall md lib fuel g c t a g' c',
+  mrender md lib fuel g c t = MOk (a, g', c') ->
+  (g_next g <= g_next g')%N /\
+  forall j, (j < g_next g)%N ->
+    match alookup j (g_cctx g) with
+    | Some ci => exists ci', alookup j (g_cctx g') = Some ci' /\ ci_name ci' = ci_name ci /\
+                             ci_fills ci' = ci_fills ci /\ ci_outer ci' = ci_outer ci
+    | None => alookup j (g_cctx g') = None
+    end.
+Proof. exact cctx_stable_lemma. Qed.
+Print Assumptions fills_private_to_instance.
+
+(* read side: a slot tag of an instance created by a component tag (outer Context present) takes its fills from the
+   entry of the id it finds under _DJC_COMPONENT_CTX and from nowhere else (the django-mode index search over the layer
+   list is confined to instances created from Python, which have no outer Context) *)
+Theorem fills_looked_up_by_id_only : forall md rid ci name g ds,
+  ci_outer ci <> None -> slot_fills_of md rid ci name g ds = ci_fills ci.
+Proof. exact slot_fills_of_own. Qed.
+Print Assumptions fills_looked_up_by_id_only.
+
+(* ===================== 3. M refines S ===================== *)
+(* For every program of the fragment wf_prog and every fuel, the mechanism model and the lexically scoped reference
+   renderer give the same result: same output, same error class, same out-of-fuel.  Unbounded: any number of
+   components, any nesting depth, by induction on the fuel and on the templates.
+   wf_prog (decidable, Core/Mech.v): isolated context behaviour (the `only` flag is then immaterial); templates built
+   from text, {{ }}, if, with, slot tags (named / default / required / repeated / nested in slot defaults, slot data,
+   component_vars.is_filled), component tags with keyword arguments and any body (none, implicit default, named fills,
+   conditional, with-bound and dynamically named fills, data= aliases, components nested in fills to any depth);
+   binders are identifiers that shadow no visible name and no internal key; one name for the slots flagged `default`
+   per template.
+   _partial - NOT covered by the proof (covered by the per-run comparison M vs S and M vs implementation only):
+   django mode; {% for %}; {% provide %} / inject; the default= alias ({{ default }} SlotRef); slot tags and is_filled
+   tests written inside the body of a component tag (pass-through slots). *)
+Theorem mech_refines_sem_isolated_partial : forall p fuel,
+  wf_prog p = true -> mout_of (mrender_prog fuel p) = embed (render_prog fuel p).
+Proof. exact mech_refines_sem_isolated_lemma. Qed.
+Print Assumptions mech_refines_sem_isolated_partial.
+
+(* ---------- non-vacuity ---------- *)
+(* a program of the fragment: nested components, a slot nested in another slot's default, a required slot, the default
+   flag, slot data read through a data= alias, a with-bound dynamically named fill, a conditional fill, an implicit
+   default body containing a component tag, is_filled *)
+Definition ex_inner : cdef :=
+  {| c_tpl := [TText (s2n "<"); TOut (EVar (s2n "d"));
+               TSlot (s2n "a") false false [(s2n "k", EVar (s2n "d"))]
+                 [TText (s2n "A-default["); TSlot (s2n "b") true false [] [TText (s2n "B-default")]; TText (s2n "]")];
+               TOut (EFilled (s2n "a")); TText (s2n ">")];
+     c_data := [(s2n "d", DKw (s2n "x"))] |}.
+Definition ex_outer : cdef :=
+  {| c_tpl := [TText (s2n "{");
+               TWith (s2n "w") (EStr (s2n "a"))
+                 [TComp (s2n "inner") [(s2n "x", EVar (s2n "e"))] false
+                    [TWith (s2n "nm") (EVar (s2n "w"))
+                       [TFill (EVar (s2n "nm")) (Some (s2n "sd")) None
+                          [TText (s2n "fill:"); TOut (EDot (s2n "sd") (s2n "k")); TOut (EVar (s2n "nm")); TOut (EVar (s2n "e"));
+                           TComp (s2n "inner") [(s2n "x", EStr (s2n "deep"))] true [TText (s2n "implicit")]]];
+                     TIf (EVar (s2n "e")) [TFill (EStr (s2n "unused")) None None [TText (s2n "never")]] []]];
+               TSlot (s2n "req") false true [] []; TText (s2n "}")];
+     c_data := [(s2n "e", DKw (s2n "y"))] |}.
+Definition ex_prog : prog :=
+  {| p_lib := [(s2n "outer", ex_outer); (s2n "inner", ex_inner)];
+     p_page := [TText (s2n "P:");
+                TComp (s2n "outer") [(s2n "y", EVar (s2n "p"))] false [TFill (EStr (s2n "req")) None None [TOut (EVar (s2n "p"))]]];
+     p_ctx := [(s2n "p", VStr (s2n "V"))]; p_mode := Isolated |}.
+
+Example refinement_premise_satisfiable :
+  wf_prog ex_prog = true /\
+  mout_of (mrender_prog 30 ex_prog) = MOk (s2n "P:{<Vfill:VaV<deepA-default[implicit]False>True>V}").
+Proof. vm_compute. split; reflexivity. Qed.
+
+(* M is a model of the CODE: where the implementation deviates from the lexical reference (variable-name collisions),
+   M deviates with it.  Django mode: the variables captured between tag and fill are inserted ABOVE the data layer of
+   the slot's component, so they shadow it (S: inner data first); recorded class
+   c03-django-fill-variables-inserted-above-inner-component-data. *)
+Definition ex_collide : prog :=
+  {| p_lib := [(s2n "o", {| c_tpl := [TComp (s2n "c") [] false
+                                        [TWith (s2n "x") (EStr (s2n "between")) [TFill (EStr (s2n "s")) None None [TOut (EVar (s2n "x"))]]]];
+                            c_data := [] |});
+               (s2n "c", {| c_tpl := [TSlot (s2n "s") false false [] []]; c_data := [(s2n "x", DStr (s2n "inner"))] |})];
+     p_page := [TComp (s2n "o") [] false []]; p_ctx := []; p_mode := Django |}.
+Example mechanism_reproduces_layer_order_deviation :
+  mout_of (mrender_prog 30 ex_collide) = MOk (s2n "between") /\ render_prog 30 ex_collide = Ok (s2n "inner").
+Proof. vm_compute. split; reflexivity. Qed.
